@@ -271,6 +271,17 @@ pub fn edit_signed(signed: &mut Value, field: &str, scn: &Value, rng: &mut impl 
             signed["expires"] = json!(t.to_rfc3339_opts(chrono::SecondsFormat::Secs, true));
             true
         }
+        "expires_plus_year" | "expires_plus_day" if !is_link => {
+            let cur = chrono::DateTime::parse_from_rfc3339(signed["expires"].as_str().unwrap()).unwrap().with_timezone(&chrono::Utc);
+            let t = if field == "expires_plus_day" {
+                cur + chrono::Duration::days(1)
+            } else {
+                use chrono::Datelike;
+                cur.with_year(cur.year() + 1).unwrap_or(cur + chrono::Duration::days(365))
+            };
+            signed["expires"] = json!(t.to_rfc3339_opts(chrono::SecondsFormat::Secs, true));
+            true
+        }
         "step_name" if !is_link => {
             bump_str(&mut signed["steps"][1]["name"]);
             true
@@ -397,6 +408,29 @@ impl Ctx {
     }
 
     pub fn run(&mut self, scn: &Value) -> Value {
+        // calendar-position classes for the expiry edits
+        let dated = scn["ops"].as_array().unwrap().iter().any(|o| o["op"] == "edit" && o["field"].as_str().map(|f| f.starts_with("expires_plus_")).unwrap_or(false));
+        if dated && scn.get("base_expiry").is_none() {
+            let bases = ["2031-03-04T05:06:07Z", "2025-12-29T00:00:00Z", "2025-12-31T23:59:59Z", "2026-01-01T00:00:00Z", "2027-01-03T12:00:00Z",
+                         "2028-02-28T00:00:00Z", "2028-02-29T00:00:00Z", "2030-12-30T00:00:00Z", "2032-12-31T00:00:00Z", "2024-12-30T08:00:00Z",
+                         "2029-06-30T23:59:59Z", "1999-12-31T23:59:59Z"];
+            let mut worst = json!({"out": "err", "note": {}});
+            for b in bases {
+                let mut s2 = scn.clone();
+                s2["base_expiry"] = json!(b);
+                let r = self.run(&s2);
+                if r.get("skip").is_some() {
+                    continue;
+                }
+                if r["out"] != "err" || r["note"]["bytes_differ"] == false {
+                    let mut r = r;
+                    r["note"]["base_expiry"] = json!(b);
+                    return r;
+                }
+                worst = r;
+            }
+            return worst;
+        }
         let kind = scn["doc"].as_str().unwrap();
         let s = instantiate(&scn["s"], &mut self.rng);
         let base = if scn["near"] == true {
@@ -411,6 +445,14 @@ impl Ctx {
             serde_json::from_str::<MetadataWrapper>(&serde_json::to_string(&v).unwrap()).unwrap()
         } else {
             rich_doc(kind, &s, &self.km)
+        };
+        let base = match (scn.get("base_expiry").and_then(|b| b.as_str()), &base) {
+            (Some(b), MetadataWrapper::Layout(l)) => {
+                let mut l = l.clone();
+                l.expires = chrono::DateTime::parse_from_rfc3339(b).unwrap().with_timezone(&chrono::Utc);
+                MetadataWrapper::Layout(l)
+            }
+            _ => base,
         };
         let mut block: Option<Metablock> = None;
         let mut text = String::new();
@@ -596,4 +638,54 @@ impl Ctx {
         let untouched = matches!(guarded(|| mb.verify(1, [self.km.pk("k1")])), Ok(Ok(_)));
         json!({"bits": n, "of": nbits, "accepted": accepted, "untouched_ok": untouched, "family": self.family})
     }
+}
+
+/// "expiry to the second": layouts that differ only in their expiry instant have different signed bytes.
+/// ed25519 is deterministic, so equal signatures over two layouts mean equal signed bytes.
+pub fn expiry_sweep(n_random: usize) -> Value {
+    use chrono::TimeZone;
+    use rand::Rng;
+    let km = KeyMap::new("ed25519", &["k1", "k2", "k3", "kx"]);
+    let mut rng = rng(55);
+    let base = match rich_doc("layout", "", &km) {
+        MetadataWrapper::Layout(l) => l,
+        _ => unreachable!(),
+    };
+    let mut instants: Vec<i64> = vec![];
+    // every day 1970-01-01 .. 2100-12-31 at a fixed time, every second of two new-year minutes, random seconds
+    let d0 = chrono::Utc.with_ymd_and_hms(1970, 1, 1, 12, 0, 0).unwrap().timestamp();
+    for day in 0..47846 {
+        instants.push(d0 + day * 86400);
+    }
+    for y in [1999, 2025, 2026] {
+        let t = chrono::Utc.with_ymd_and_hms(y, 12, 31, 23, 59, 0).unwrap().timestamp();
+        for s in 0..120 {
+            instants.push(t + s);
+        }
+    }
+    for _ in 0..n_random {
+        instants.push(rng.gen_range(0..4102444800i64));
+    }
+    instants.sort();
+    instants.dedup();
+    let mut seen: std::collections::HashMap<Vec<u8>, i64> = std::collections::HashMap::new();
+    let mut bad = vec![];
+    for t in &instants {
+        let mut l = base.clone();
+        l.expires = chrono::Utc.timestamp_opt(*t, 0).unwrap();
+        let mb = match guarded(|| Metablock::new(MetadataWrapper::Layout(l), &[km.sk("k1")])) {
+            Ok(Ok(mb)) => mb,
+            _ => {
+                bad.push(json!({"instant": t, "error": "signing failed"}));
+                continue;
+            }
+        };
+        let sig = mb.signatures[0].value().as_bytes().to_vec();
+        if let Some(prev) = seen.insert(sig, *t) {
+            if bad.len() < 5 {
+                bad.push(json!({"same_signed_bytes": [chrono::Utc.timestamp_opt(prev, 0).unwrap().to_rfc3339(), chrono::Utc.timestamp_opt(*t, 0).unwrap().to_rfc3339()]}));
+            }
+        }
+    }
+    json!({"instants": instants.len(), "bad": bad})
 }
